@@ -530,6 +530,13 @@ class _Gen:
                 return self.i_field(ctx, body)
             lins["optional"] = True
         body.append(lins)
+        if self.boolean(0.15) and not ctx["opt"] and ctx["depth"] < self.size["max_depth"] and \
+                [f for f in ctx["switchable"] if f not in ctx["switched"]]:
+            self.i_switch(ctx, body)        # the reference comes only after a whole switch
+            if ctx["dummy"]:
+                # a case ended in a dummy: nothing may follow - reference the length field inside... no: undo
+                body.pop()
+                ctx["dummy"] = False
         if self.boolean(0.25) and not ctx["opt"]:
             # something in between
             mid = {"tag": "field", "name": _uniq_name(self.draw, FIELD_NAMES, ctx["names"], "f"),
